@@ -2,10 +2,10 @@ package main
 
 import (
 	"bytes"
-	"time"
 	"encoding/json"
 	"fmt"
 	"strings"
+	"time"
 
 	simdjson "github.com/minio/simdjson-go"
 
@@ -156,6 +156,9 @@ func (o c16Op) String() string {
 		}
 		return fmt.Sprintf("%s on %s at value position #%d", en, name(o.Obj), o.Pos)
 	}
+	if o.Kind == 2 {
+		return "Parse(another document, reuse = original)"
+	}
 	if o.Dst < 0 {
 		return fmt.Sprintf("Clone(%s, nil)", name(o.Obj))
 	}
@@ -187,7 +190,20 @@ func c16Run(seed seedDoc, cfg Cfg, hist []c16Op) (what, fp string) {
 			return "", "" // refers to a clone that does not exist in this history
 		}
 		src := objs[o.Obj]
-		if o.Kind == 1 {
+		if o.Kind == 2 {
+			// the original is recycled: another document is parsed with it as the reuse argument
+			if o.Obj != 0 {
+				return "", ""
+			}
+			other := []byte(`{"zz":"completely different strings","yy":["Q","RR","SSS"],"n":[9,8]}`)
+			od, _ := ref.Parse(other)
+			npj, perr, pp := doParse(cfg, append([]byte(nil), other...), src.pj, false)
+			if perr != nil || pp != "" {
+				return fmt.Sprint("op ", i, " re-parse with reuse failed: ", perr, pp), "reparse"
+			}
+			objs[0] = &c16Obj{npj, []*ref.Node{od}}
+			src = nil
+		} else if o.Kind == 1 {
 			var dst *simdjson.ParsedJson
 			if o.Dst >= 0 {
 				if o.Dst >= len(objs) || o.Dst == o.Obj {
@@ -330,9 +346,10 @@ func c16Body(w *W) {
 			alpha = append(alpha, c16Op{Kind: 1, Obj: obj, Dst: dst})
 		}
 	}
+	alpha = append(alpha, c16Op{Kind: 2, Obj: 0})
 	depth := 3
 	seeds := []seedDoc{editSeeds[0], editSeeds[1], editSeeds[5]}
-	w.Note(fmt.Sprintf("Clone histories: every sequence of <= %d operations over %d ops {4 edits x 3 positions on the original or a clone, Clone of any object into nil or into any other existing object} on %d seeds x copy/no-copy; after every step every object must equal its own model, and again after the input buffer is overwritten", depth, len(alpha), len(seeds)))
+	w.Note(fmt.Sprintf("Clone histories: every sequence of <= %d operations over %d ops {4 edits x 3 positions on the original or a clone, Clone of any object into nil or into any other existing object, re-parsing another document with the original as reuse argument} on %d seeds x copy/no-copy; after every step every object must equal its own model, and again after the input buffer is overwritten", depth, len(alpha), len(seeds)))
 	for _, seed := range seeds {
 		for _, cfg := range strModes() {
 			var hist []c16Op
